@@ -1919,14 +1919,26 @@ func (m *c17M) installModels(ty *c17Types) {
 		for _, e := range a[1].elems() {
 			mods |= e.i
 		}
-		return c17B(r.st.f["Keycode"].i == a[0].i && r.st.f["Modifiers"].i == mods)
+		var locks int64
+		for _, ln := range []string{"ModCapsLock", "ModNumLock"} {
+			if v, ok := c17Const(ty.vx, ln); ok {
+				locks |= v
+			}
+		}
+		return c17B(r.st.f["Keycode"].i == a[0].i && r.st.f["Modifiers"].i&^locks == mods&^locks)
 	}
 	nat[modPath+".Key.MatchString"] = func(m *c17M, r *c17V, a []c17V) c17V {
 		if r == nil || r.k != c17Stc || len(a) != 1 || a[0].k != c17Str || m.keys == nil {
 			m.unsupported("Key.MatchString arguments")
 		}
 		code, mods, ok := m.keys.parse(a[0].s)
-		return c17B(ok && r.st.f["Keycode"].i == code && r.st.f["Modifiers"].i == mods)
+		var locks int64
+		for _, ln := range []string{"ModCapsLock", "ModNumLock"} {
+			if v, ok := c17Const(ty.vx, ln); ok {
+				locks |= v
+			}
+		}
+		return c17B(ok && r.st.f["Keycode"].i == code && r.st.f["Modifiers"].i&^locks == mods)
 	}
 	noop := func(m *c17M, _ *c17V, a []c17V) c17V { return c17V{} }
 	nat[modPath+".Window.SetCell"] = noop
@@ -2117,6 +2129,10 @@ func (k *c17Keys) format(code, mods int64) string {
 	}
 	if n, ok := k.names[code]; ok {
 		return sb.String() + n
+	}
+	// Key.String prints no prefix for the lock modifiers; with CapsLock it prints the upper-case rune
+	if caps, ok := c17Const(k.ty.vx, "ModCapsLock"); ok && mods&caps != 0 {
+		return sb.String() + string(unicode.ToUpper(rune(code)))
 	}
 	return sb.String() + string(rune(code))
 }
@@ -2396,6 +2412,10 @@ func c17SemTextField(c *Ctx, m *c17M, ty *c17Types) {
 			r, _ := utf8.DecodeRuneInString(txt)
 			runKey(v, mkKey(int64(r), 0, txt, press), fmt.Sprintf("typed %q", txt), "insert", txt)
 		}
+		// CapsLock / NumLock are reported as modifiers on every key while the lock is on (kitty protocol): still typed text
+		for _, lk := range c17LockVariants(vx) {
+			runKey(v, mkKey('x', lk.mods, lk.text, press), fmt.Sprintf("typed %q with %s", lk.text, lk.name), "insert", lk.text)
+		}
 		v.record(c, rule, he.Name+"/typed text appears once at the cursor", he.Decl.Pos(), "narrow, wide and multi-codepoint text is inserted at the cursor and the cursor advances by its graphemes")
 	}
 	{
@@ -2644,16 +2664,36 @@ func c17SemTextInput(c *Ctx, m *c17M, ty *c17Types) {
 			runOne(v, mkKey(txt, txt, press), fmt.Sprintf("typed %q", txt), "insert", txt)
 		}
 		runOne(v, mkKey("Shift+X", "X", press), `typed "X" with Shift`, "insert", "X")
+		// CapsLock / NumLock are reported as modifiers on every key while the lock is on (kitty protocol): still typed text
+		for _, lk := range c17LockVariants(vx) {
+			runOne(v, keys.mk('x', lk.mods, lk.text, press), fmt.Sprintf("typed %q with %s", lk.text, lk.name), "insert", lk.text)
+		}
 		v.record(c, rule, up.Name+"/typed text appears once at the cursor", up.Decl.Pos(), "narrow, wide and multi-codepoint text is inserted at the cursor and the cursor advances by its graphemes")
 	}
 	{
 		v := &c17Verdict{}
-		for _, l := range []string{"Ctrl+x", "Alt+x", "Super+x"} {
-			runOne(v, mkKey(l, "x", press), "chord "+l, "", "")
+		// chords with Ctrl, Alt or Super that are not bindings type nothing, with or without a lock modifier
+		// (Ctrl+z / Alt+z / Super+z are in no table; if one becomes a binding it is judged as a binding instead)
+		bound := map[[2]int64]bool{}
+		for _, b := range append(append([]c17Binding{}, ref...), code...) {
+			bound[[2]int64{b.code, b.mods}] = true
+		}
+		for _, mn := range []string{"ModCtrl", "ModAlt", "ModSuper"} {
+			mod, ok := c17Const(vx, mn)
+			if !ok || bound[[2]int64{'z', mod}] {
+				continue
+			}
+			runOne(v, keys.mk('z', mod, "z", press), "chord "+keys.format('z', mod)+" carrying the text \"z\"", "none", "")
+			for _, lk := range c17LockVariants(vx) {
+				if lk.mods&kc("ModShift") != 0 {
+					continue
+				}
+				runOne(v, keys.mk('z', mod|lk.mods, "z", press), "chord "+keys.format('z', mod)+" with "+lk.name+" carrying the text \"z\"", "none", "")
+			}
 		}
 		runOne(v, mkKey("\u0301", "\u0301", press), "typed U+0301", "", "")
 		runOne(v, mkKey("x", "x", release), "release of x", "none", "")
-		v.record(c, rule, up.Name+"/release changes nothing, chords keep the cursor within the text", up.Decl.Pos(), "release ignored; unbound chords keep the invariant")
+		v.record(c, rule, up.Name+"/release changes nothing, chords type nothing", up.Decl.Pos(), "release ignored; unbound Ctrl/Alt/Super chords carrying text insert nothing")
 	}
 	// paste brackets: (PasteStart,) keys of type paste accumulate, the end event inserts the text once at the cursor and
 	// advances the cursor by its grapheme clusters (not runes, not bytes), a second end event inserts nothing, and a
@@ -4826,4 +4866,31 @@ func c17CoherentBySim(c *Ctx, m *c17M, fi *FuncInfo, tfT types.Type) (runs int, 
 		}
 	}
 	return runs, "", ""
+}
+
+type c17Lock struct {
+	name string
+	mods int64
+	text string
+}
+
+// c17LockVariants: the modifier sets a kitty-protocol terminal reports for an ordinary "x" key while a lock is on.
+func c17LockVariants(vx *packages.Package) []c17Lock {
+	caps, okC := c17Const(vx, "ModCapsLock")
+	num, okN := c17Const(vx, "ModNumLock")
+	shift, okS := c17Const(vx, "ModShift")
+	var out []c17Lock
+	if okC {
+		out = append(out, c17Lock{"CapsLock", caps, "X"})
+	}
+	if okN {
+		out = append(out, c17Lock{"NumLock", num, "x"})
+	}
+	if okC && okN {
+		out = append(out, c17Lock{"CapsLock+NumLock", caps | num, "X"})
+	}
+	if okC && okS {
+		out = append(out, c17Lock{"Shift+CapsLock", shift | caps, "x"})
+	}
+	return out
 }
